@@ -299,7 +299,7 @@ const ceiling = 5 * time.Second
 // waitTargetOrRec waits until the before-request function has been called for the failing target or a record
 // satisfying pred has arrived.
 func (sc *scenario) waitTargetOrRec(pred func(rec) bool) {
-	deadline := time.After(ceiling)
+	deadline := time.After(streamCeiling())
 	for {
 		if sc.targetCalls() > 0 {
 			return
@@ -450,13 +450,17 @@ func (sc *scenario) do(op string, i int, nextID *int) opWindow {
 		if w.Err == nil && sc.client == "streamable" && !sc.noStream {
 			// the listening stream is opened by a goroutine: wait until the GET arrived (any path) — or, when the
 			// before-request function refuses GETs, until it has been asked
-			sc.waitTargetOrRecIf(sc.fail != nil && sc.fail.Kind == "stream", func(r rec) bool { return r.Kind == "stream" })
+			if sc.fail != nil && sc.fail.Kind == "stream" {
+				sc.waitTargetOrRec(func(r rec) bool { return r.Kind == "stream" })
+			} else if !sc.srv.waitRec(func(r rec) bool { return r.Kind == "stream" }, streamCeiling()) {
+				streamTimeouts++
+			}
 			// … and, when it arrived at the served path, until the server has the stream ready for pushing
 			for _, r := range sc.srv.snapshot() {
 				if r.Kind == "stream" && r.Path == streamablePath {
 					select {
 					case <-sc.srv.streamUp:
-					case <-time.After(ceiling):
+					case <-time.After(streamCeiling()):
 					}
 				}
 			}
@@ -519,7 +523,7 @@ func (sc *scenario) do(op string, i int, nextID *int) opWindow {
 			time.Sleep(2 * time.Millisecond)
 		}
 		close(gt.release)
-		sc.srv.waitRec(func(r rec) bool { return r.Kind == "answer" && r.ID == id }, ceiling)
+		sc.srv.waitRec(func(r rec) bool { return r.Kind == "answer" && r.ID == id }, streamCeiling())
 	case "reopen":
 		if sc.client != "streamable" {
 			break
@@ -541,7 +545,7 @@ func (sc *scenario) do(op string, i int, nextID *int) opWindow {
 		}
 		sc.reopen(ctx, &w)
 		close(gt.release)
-		sc.srv.waitRec(func(r rec) bool { return r.Kind == "answer" && r.ID == id }, ceiling)
+		sc.srv.waitRec(func(r rec) bool { return r.Kind == "answer" && r.ID == id }, streamCeiling())
 	}
 	w.To = len(sc.srv.snapshot())
 	return w
@@ -557,7 +561,7 @@ func (sc *scenario) pushSlowRoots(nextID *int) (gt *rootsGate, id string, onRead
 	select {
 	case onReader = <-gt.entered:
 		return gt, id, onReader, true
-	case <-time.After(ceiling):
+	case <-time.After(streamCeiling()):
 		sc.roots.gate.Store(nil)
 		close(gt.release)
 		return gt, id, false, false
@@ -580,8 +584,9 @@ func (sc *scenario) reopen(ctx context.Context, w *opWindow) {
 	}
 	w.Reopened = sc.initDone
 	if expectGet {
-		if !sc.srv.waitUps(ups+1, ceiling) {
+		if !sc.srv.waitUps(ups+1, streamCeiling()) {
 			w.Err = errors.New("the reopened listening stream did not come up")
+			streamTimeouts++
 		}
 	}
 }
@@ -630,12 +635,28 @@ func (sc *scenario) waitBodyClose(n int) bool {
 	}
 }
 
+// streamCeiling: how long to wait for the listening stream's GET after a successful handshake. On the unchanged tree
+// the GET always comes (the wait is on its arrival). When it has failed to come a few times the finding is already
+// there (the trace lacks the stream): later scenarios then wait only briefly, so that a broken tree does not cost
+// five seconds per scenario.
+var streamTimeouts int
+
+func streamCeiling() time.Duration {
+	switch {
+	case streamTimeouts >= 12:
+		return 30 * time.Millisecond
+	case streamTimeouts >= 3:
+		return 200 * time.Millisecond
+	}
+	return ceiling
+}
+
 func (sc *scenario) waitTargetOrRecIf(target bool, pred func(rec) bool) {
 	if target {
 		sc.waitTargetOrRec(pred)
 		return
 	}
-	sc.srv.waitRec(pred, ceiling)
+	sc.srv.waitRec(pred, streamCeiling())
 }
 
 // observe renders one recorded request in the shape of the Lean model's Obs.
